@@ -195,34 +195,63 @@ fn run_t<T: SampleX>(c0: &Case) -> Outcome {
         (ss / seg.len() as f64).sqrt() * 2f64.sqrt()
     };
     let tau_of = |j: usize| (tones[j].ph - fit.phase(j)) / (2.0 * pi * tones[j].f);
-    let tau0 = tau_of(jl);
-    let per = 1.0 / tones[jl].f;
+    // candidates: the delays compatible with the fitted phase of the tone whose phase pins the delay down best
+    // (largest amplitude x frequency): tau_k + n x period_k inside the plausible range. Scanned on every 4th
+    // frame, the best three re-evaluated on all frames.
     let tmax = band.filt as f64 + 16.0;
-    let nmin = ((-16.0 - tau0) / per).floor() as i64;
-    let nmax = ((tmax - tau0) / per).ceil() as i64;
+    let js = (0..k).max_by(|a, b| (tones[*a].a * tones[*a].f).partial_cmp(&(tones[*b].a * tones[*b].f)).unwrap()).unwrap();
+    let resid_sub = |tau: f64| -> f64 {
+        let mut ss = 0.0;
+        let mut i = 0;
+        while i < seg.len() {
+            let m = (m0 + i) as f64;
+            let mut f = 0.0;
+            for t in &tones {
+                f += t.a * (2.0 * pi * (t.f * (m / ratio - tau)).fract() + t.ph).cos();
+            }
+            ss += (seg[i] - f) * (seg[i] - f);
+            i += 4;
+        }
+        ss
+    };
+    let mut scan: Vec<(f64, f64)> = vec![];
+    {
+        let per = 1.0 / tones[js].f;
+        let t0 = tau_of(js);
+        let nmin = ((-16.0 - t0) / per).floor() as i64;
+        let nmax = ((tmax - t0) / per).ceil() as i64;
+        for n in nmin..=nmax {
+            let t = t0 + n as f64 * per;
+            scan.push((resid_sub(t), t));
+        }
+    }
+    scan.sort_by(|a, b| a.0.partial_cmp(&b.0).unwrap());
     let mut best = (f64::MAX, 0.0);
-    let step = ((nmax - nmin) / 4000).max(1);
-    let mut n = nmin;
-    while n <= nmax {
-        let t = tau0 + n as f64 * per;
+    for (_, t) in scan.iter().take(3) {
+        let rsd = resid_of(*t);
+        if rsd < best.0 {
+            best = (rsd, *t);
+        }
+    }
+    // local refinement (the residual is smooth around its minimum): ternary search within a quarter period of the highest tone
+    {
+        let w = 0.25 / tones[jh].f;
+        let (mut lo, mut hi) = (best.1 - w, best.1 + w);
+        for _ in 0..16 {
+            let (m1, m2) = (lo + (hi - lo) / 3.0, hi - (hi - lo) / 3.0);
+            if resid_of(m1) < resid_of(m2) {
+                hi = m2;
+            } else {
+                lo = m1;
+            }
+        }
+        let t = 0.5 * (lo + hi);
         let rsd = resid_of(t);
         if rsd < best.0 {
             best = (rsd, t);
         }
-        n += step;
     }
-    // refine with the highest tone's phase (same delay, finer resolution)
-    if jh != jl {
-        let th = tau_of(jh);
-        let perh = 1.0 / tones[jh].f;
-        let t2 = th + ((best.1 - th) / perh).round() * perh;
-        for t in [t2, 0.5 * (t2 + best.1)] {
-            let rsd = resid_of(t);
-            if rsd < best.0 {
-                best = (rsd, t);
-            }
-        }
-    }
+    let _ = jl;
     let cd_bound = asum * tolw + floor + 2.0 * interp_sum + feps * asum;
     o.maxi("worst_common_delay_resid_over_bound", best.0 / cd_bound);
     if !(best.0 <= cd_bound) {
